@@ -67,18 +67,21 @@ pub struct Opts {
     pub periodic: bool,
     /// demand that the boundary complex has the Euler characteristic of a (D-1)-sphere
     pub boundary_euler: bool,
+    /// also send positively oriented cells through the tolerance-band analysis (a cell whose exact
+    /// determinant is positive but inside the library's tolerance counts as undecidable)
+    pub band_positive: bool,
 }
 
 impl Opts {
     pub fn euclid(g: Guarantee, completion: bool) -> Self {
-        Opts { guarantee: g, completion, geometric_orientation: true, euler: true, periodic: false, boundary_euler: false }
+        Opts { guarantee: g, completion, geometric_orientation: true, euler: true, periodic: false, boundary_euler: false, band_positive: false }
     }
     /// Euclidean ball with sphere boundary (C01 strength)
     pub fn ball(g: Guarantee, completion: bool) -> Self {
         Opts { boundary_euler: true, ..Self::euclid(g, completion) }
     }
     pub fn structural_only() -> Self {
-        Opts { guarantee: Guarantee::Pseudomanifold, completion: false, geometric_orientation: false, euler: false, periodic: false, boundary_euler: false }
+        Opts { guarantee: Guarantee::Pseudomanifold, completion: false, geometric_orientation: false, euler: false, periodic: false, boundary_euler: false, band_positive: false }
     }
 }
 
@@ -503,6 +506,12 @@ pub fn check(s: &Snap, o: Opts) -> Report {
         for c in &s.cells {
             let idx: Vec<usize> = c.verts.iter().map(|k| vidx[k]).collect();
             let sg = sp.orient(&idx);
+            if sg > 0 && o.band_positive {
+                let m = orientation_matrix(&idx.iter().map(|&i| pts[i].clone()).collect::<Vec<_>>());
+                if analyze(&m, 1e-15).decision != Decision::Sign(1) {
+                    r.orient_in_band += 1;
+                }
+            }
             if sg <= 0 {
                 // only a violation when decidable
                 let m = orientation_matrix(&idx.iter().map(|&i| pts[i].clone()).collect::<Vec<_>>());
